@@ -221,8 +221,17 @@ ROUND4 = {
  "C10": ("", "Round 4: the evtx window predicate is decided by the C03 predicate tables (R10.9)."),
  "C11": ("", "Round 4: the stored modification time wins over the file system's whenever it is present (R11.2 clause); the backwards walk strictly progresses (R11.10)."),
  "C13": ("", "Round 4: every printer variant writes out what it batches (R13.12)."),
- "C14": ("", "Round 4: no filter-pattern row reads fractional seconds with chrono's integer-nanosecond %f (R14.10)."),
+ "C14": ("", "Round 4: no filter-pattern row reads fractional seconds with chrono's integer-nanosecond %f (R14.10); parsed offset counts reach chrono's range-checked constructors unscaled (R14.11); a value that was given is resolved or rejected, never ignored (R14.12)."),
+ "C02": ("", "Round 4: no line part is built with its end tied to its own begin index (R2.12)."),
+ "C12": ("", "Round 4: threshold findings are keyed by everything the lookup key depends on (R12.1); streamed accounting files keep their blocks whatever the block count (R12.2 lift of C05 R5.4)."),
+ "C15": ("; reaching-definition and loop-state checks in process_path", "Round 4: every classification is fed the resolved name (R15.5); the walk loop takes no decision from a collection it fills itself (R15.6)."),
+ "C16": ("; reaching definitions for the two junk-trimming steps", "Round 4: the trimming steps compose (R16.9); tar members are classified by the full member path (R16.10)."),
+ "C17": ("", "Round 4: the block-end test matches the end convention of the function it asks (R17.8); the release pass is not held back by the shape of the message (R17.1 clause)."),
+ "C18": ("", "Round 4: the flag test protecting the join lies after the loop (R18.6 b); only the signal handler writes the interrupt flag (R18.8)."),
+ "C19": ("", "Round 4: direct writes of non-constant bytes are counted in lines too (R19.10); the evtx per-file first/last are running extrema (R19.11)."),
 }
+ROUND4["C13"] = ("", "Round 4: every printer variant writes out what it batches (R13.12); the separator follows every message (R13.3 clause); decorated multi-line printers keep every byte (R13.13); a column width never becomes a formatter width (R13.4 clause).")
+ROUND4["C08"] = ("", ROUND4["C08"][1] + " The rendering buffer holds the longest rendering of any layout (R8.13).")
 for _pid, (_t, _x) in ROUND4.items():
     if _pid in CLAIMS:
         _tech, _text, _ref = CLAIMS[_pid]
